@@ -44,6 +44,8 @@ pub mod vx_dc {
 /*@include units/dec_comp/aw.rs @*/
 
 /*@include units/dec_comp/any.rs @*/
+
+/*@include units/dec_comp/enc.rs @*/
 }
 
 } // verus!
